@@ -1,0 +1,10 @@
+//go:build verif
+
+package lql
+
+// VerifC13ParseRelative exposes parseRalativeDateTime to the verification harness (C13: its indexing is modelled in
+// lean/Logrange/Model/LqlSites.lean); only the error is of interest.
+func VerifC13ParseRelative(dt string) error {
+	_, err := parseRalativeDateTime(dt)
+	return err
+}
